@@ -153,7 +153,7 @@ def run_shard(rec):
         if rec.out_of_time():
             rec.count('cut_by_time')
             break
-        fgen = forest.ForestGen(rng, g, share=rng.choice([0.0, 0.2, 0.5]))
+        fgen = forest.ForestGen(rng, g, share=rng.choice([0.0, 0.2, 0.5]), named_tuples=True)
         root = fgen.obj(rng.randint(1, 5)) if rng.random() < 0.8 else fgen.tree(rng.randint(1, 5))
         check_tree(rec, g, root, dict(kind='forest', seed=rec.seed, shard=rec.shard, forest=k, tree=short(root)[:200]))
         if k == 0:
